@@ -853,6 +853,12 @@ func c09CloseBubble(c *wk.Ctx, idx int64, r *rand.Rand) {
 			if i%10 == 0 {
 				time.Sleep(time.Duration(r.Intn(7)) * time.Second)
 			}
+			if i == 20 || i == 30 {
+				// minutes without traffic (virtual time costs nothing): the slow background timers - the 3 minute NIC monitor,
+				// the minute ticker's purge, the hunts' repeats - run between two packets, under the race detector
+				time.Sleep(time.Duration(200+r.Intn(200)) * time.Second)
+				c.Obs("close_bubble_quiet_periods", 1)
+			}
 		}
 		synctest.Wait()
 		st.arp.Close()
